@@ -28,6 +28,9 @@ func astFacts(out io.Writer) {
 	var recvWrites [][3]string
 	var jsonCallers [][2]string
 	var shutdownCalls [][2]string // (function, rendered call) for Shutdown / Close calls in package server
+	var serverLits [][2]string    // (function, Handler expression) of every http.Server composite literal in package server
+	var handleCalls [][2]string   // (function, rendered call) of every <mux>.Handle(...) call in package server
+	var chain []string            // promhttp instrumentation chain in wrapped_http (outermost first, then the innermost argument)
 	for _, d := range dirs {
 		fset := token.NewFileSet()
 		pkgs, err := parser.ParseDir(fset, filepath.Join(root, d), func(fi os.FileInfo) bool { return !strings.HasSuffix(fi.Name(), "_test.go") }, 0)
@@ -99,7 +102,37 @@ func astFacts(out io.Writer) {
 							}
 						case *ast.IncDecStmt:
 							note(t.X)
+						case *ast.CompositeLit:
+							if pname == "server" && strings.HasSuffix(exprString(t.Type), "http.Server") {
+								h := "<none>"
+								for _, el := range t.Elts {
+									if kv, ok := el.(*ast.KeyValueExpr); ok && exprString(kv.Key) == "Handler" {
+										h = callString(kv.Value)
+									}
+								}
+								serverLits = append(serverLits, [2]string{fd.Name.Name, h})
+							}
 						case *ast.CallExpr:
+							if se, ok := t.Fun.(*ast.SelectorExpr); ok && pname == "server" && se.Sel.Name == "Handle" {
+								handleCalls = append(handleCalls, [2]string{fd.Name.Name, callString(t)})
+							}
+							if se, ok := t.Fun.(*ast.SelectorExpr); ok && pname == "wrapped_http" && fd.Name.Name == "Handle" &&
+								strings.HasPrefix(se.Sel.Name, "InstrumentHandler") && len(chain) == 0 {
+								// walk the nested calls: each wrapper takes (collector, next)
+								var cur ast.Expr = t
+								for {
+									c, ok := cur.(*ast.CallExpr)
+									if !ok {
+										chain = append(chain, exprString(cur))
+										break
+									}
+									chain = append(chain, exprString(c.Fun))
+									if len(c.Args) == 0 {
+										break
+									}
+									cur = c.Args[len(c.Args)-1]
+								}
+							}
 							if se, ok := t.Fun.(*ast.SelectorExpr); ok && se.Sel.Name == "SetJSONOutput" {
 								jsonCallers = append(jsonCallers, [2]string{pname, fd.Name.Name})
 							}
@@ -157,6 +190,27 @@ func astFacts(out io.Writer) {
 		}
 		fmt.Fprintf(out, "(%q, %q)", w[0], w[1])
 	}
+	fmt.Fprintf(out, "]\n\n/-- (function, Handler expression) of every http.Server literal in package server -/\ndef httpServerHandlers : List (String × String) :=\n  [")
+	for i, w := range serverLits {
+		if i > 0 {
+			fmt.Fprint(out, ", ")
+		}
+		fmt.Fprintf(out, "(%q, %q)", w[0], w[1])
+	}
+	fmt.Fprintf(out, "]\n\n/-- (function, call) of every mux Handle call in package server -/\ndef muxHandleCalls : List (String × String) :=\n  [")
+	for i, w := range handleCalls {
+		if i > 0 {
+			fmt.Fprint(out, ", ")
+		}
+		fmt.Fprintf(out, "(%q, %q)", w[0], w[1])
+	}
+	fmt.Fprintf(out, "]\n\n/-- promhttp wrappers applied by wrapped_http.Handle, outermost first, ending with the wrapped handler;\nthe flag says whether the name starts with promhttp.InstrumentHandler -/\ndef instrumentationChain : List (String × Bool) :=\n  [")
+	for i, w := range chain {
+		if i > 0 {
+			fmt.Fprint(out, ", ")
+		}
+		fmt.Fprintf(out, "(%q, %v)", w, strings.HasPrefix(w, "promhttp.InstrumentHandler"))
+	}
 	fmt.Fprintf(out, "]\n\n")
 }
 
@@ -184,6 +238,14 @@ func exprString(e ast.Expr) string {
 		return exprString(t.X) + "[]"
 	case *ast.StarExpr:
 		return "*" + exprString(t.X)
+	case *ast.BasicLit:
+		return t.Value
+	case *ast.CompositeLit:
+		return exprString(t.Type) + "{…}"
+	case *ast.UnaryExpr:
+		return t.Op.String() + exprString(t.X)
+	case *ast.CallExpr:
+		return callString(t)
 	}
 	return "?"
 }
